@@ -144,6 +144,8 @@ def execute(case, ctx):
     E = list(trec.effects)
     ctx.stats['K_total'] += K
     ctx.event('twin', K, canon.digest(tsig), len(E))
+    ctx.state(canon.digest([K, tsig[0], len(E), sorted(trec.kinds)]))
+    ctx.op_kind('K%d' % min(K // 10, 30))
     if twin.kind == 'base':
         ctx.report('non_exception_escaped', '%r: %r' % (src[:200], twin.exc), {'kind': 'non_exception_escaped'})
     what = '%r (K=%d)' % (src[:240], K)
